@@ -76,6 +76,20 @@ def name_cases():
                                       ports=[{"name": nm, "direction": d, "size": E.sym("N")} for nm, d in zip("abcd", dirs)],
                                       resources=[{"name": "T", "type": "additive", "value": E.sym("N")}]),
                       "role": "port-orders", "name": "".join(d[0] for d in dirs)})
+    # sections with MANY entries (10, 11, ... 25 input parameters / ports / resources / local variables, and a child linked
+    # from each parameter): however long a section is, every item has its entry
+    for n in (9, 10, 11, 12, 15, 19, 20, 21, 25):
+        ps = [f"p_{chr(97 + i)}" for i in range(n)]
+        cases.append({"routine": leaf("root", input_params=ps, resources=[{"name": "T", "type": "additive", "value": E.op("add", *[E.sym(q) for q in ps[:3]])}]),
+                      "role": "wide", "name": f"params{n}"})
+        cases.append({"routine": leaf("root", input_params=["N"],
+                                      ports=[{"name": f"q_{chr(97 + i)}", "direction": ["input", "output", "through"][i % 3], "size": E.sym("N")} for i in range(n)],
+                                      resources=[{"name": f"R{chr(97 + i)}", "type": "additive", "value": E.op("add", E.sym("N"), E.num(i))} for i in range(n)],
+                                      local_variables=[[f"l_{chr(97 + i)}", E.op("add", E.sym("N"), E.num(i))] for i in range(n)]),
+                      "role": "wide", "name": f"ports{n}"})
+        child = leaf("sub", input_params=ps, resources=[{"name": "T", "type": "additive", "value": E.op("add", *[E.sym(q) for q in ps])}])
+        cases.append({"routine": leaf("root", input_params=ps, linked_params=[[q, [["sub", q]]] for q in ps], children=[child]),
+                      "role": "wide", "name": f"links{n}", "compiled": True})
     return cases
 
 
